@@ -1115,6 +1115,10 @@ namespace awkward {
                     "try a different 'axis')") + FILENAME(__LINE__));
     }
     else {
+      if (contents_.empty()) {
+        throw std::invalid_argument(
+          std::string("axis out of range for flatten") + FILENAME(__LINE__));
+      }
       ContentPtrVec contents;
       for (auto content : contents_) {
         ContentPtr trimmed = content.get()->getitem_range(0, length());
@@ -1713,6 +1717,10 @@ namespace awkward {
       util::Parameters parameters;
       if (head.get()->preserves_type(advanced)) {
         parameters = parameters_;
+      }
+      if (contents.empty()) {
+        throw std::invalid_argument(
+          std::string("too many dimensions in slice") + FILENAME(__LINE__));
       }
       RecordArray out(Identities::none(), parameters, contents, recordlookup_);
       return out.getitem_next(nexthead, nexttail, advanced);
